@@ -45,48 +45,51 @@ def tMap : Bytes := [91, 115, 116, 114, 105, 110, 103, 93]   -- "[string]"
 /-! ## print
 
   `sp` is the separator material: `printTy true` puts the canonical single spaces (`a: int, b: int`),
-  `printTy false` none (`a:int,b:int`) — the latter is the token concatenation used by `toks`. -/
+  `printTy false` none (`a:int,b:int`) — the latter is the token concatenation used by `toks`.
+  The printers prepend to a tail (`printTy sp t tl = printing of t ++ tl`), so that deeply nested types print
+  in linear time. -/
+
+def sep (sp : Bool) (tl : Bytes) : Bytes := if sp then 32 :: tl else tl
 
 mutual
-def printTy (sp : Bool) : Ty → Bytes
-  | .bool => tBool
-  | .int => tInt
-  | .float => tFloat
-  | .string => tString
-  | .object => tObject
-  | .named n => n
-  | .maybe t => 63 :: printTy sp t                    -- '?'
-  | .array t => tArray ++ printTy sp t
-  | .map t => tMap ++ printTy sp t
-  | .struct fs => 40 :: printFields sp fs             -- '(' … ')'
-  | .enum fs => 40 :: printFields sp fs
+def printTy (sp : Bool) : Ty → Bytes → Bytes
+  | .bool, tl => tBool ++ tl
+  | .int, tl => tInt ++ tl
+  | .float, tl => tFloat ++ tl
+  | .string, tl => tString ++ tl
+  | .object, tl => tObject ++ tl
+  | .named n, tl => n ++ tl
+  | .maybe t, tl => 63 :: printTy sp t tl                    -- '?'
+  | .array t, tl => tArray ++ printTy sp t tl
+  | .map t, tl => tMap ++ printTy sp t tl
+  | .struct fs, tl => 40 :: printFields sp fs tl             -- '(' … ')'
+  | .enum fs, tl => 40 :: printFields sp fs tl
 /-- the fields and the closing parenthesis -/
-def printFields (sp : Bool) : Fields → Bytes
-  | .nil => [41]
-  | .typed n t .nil => n ++ 58 :: ((if sp then [32] else []) ++ printTy sp t ++ [41])
-  | .bare n .nil => n ++ [41]
-  | .typed n t r => n ++ 58 :: ((if sp then [32] else []) ++ printTy sp t ++ 44 :: ((if sp then [32] else []) ++ printFields sp r))
-  | .bare n r => n ++ 44 :: ((if sp then [32] else []) ++ printFields sp r)
+def printFields (sp : Bool) : Fields → Bytes → Bytes
+  | .nil, tl => 41 :: tl
+  | .typed n t .nil, tl => n ++ 58 :: sep sp (printTy sp t (41 :: tl))
+  | .bare n .nil, tl => n ++ 41 :: tl
+  | .typed n t r, tl => n ++ 58 :: sep sp (printTy sp t (44 :: sep sp (printFields sp r tl)))
+  | .bare n r, tl => n ++ 44 :: sep sp (printFields sp r tl)
 end
 
-def printMember (sp : Bool) : Member → Bytes
-  | .alias n _ t => tType ++ (if sp then [32] else []) ++ n ++ (if sp then [32] else []) ++ printTy sp t
-  | .method n _ i o =>
-    tMethod ++ (if sp then [32] else []) ++ n ++ printTy sp i ++ (if sp then [32] else []) ++ tArrow
-      ++ (if sp then [32] else []) ++ printTy sp o
-  | .error n _ none => tError ++ (if sp then [32] else []) ++ n
-  | .error n _ (some t) => tError ++ (if sp then [32] else []) ++ n ++ (if sp then [32] else []) ++ printTy sp t
+def printMember (sp : Bool) : Member → Bytes → Bytes
+  | .alias n _ t, tl => tType ++ sep sp (n ++ sep sp (printTy sp t tl))
+  | .method n _ i o, tl =>
+    tMethod ++ sep sp (n ++ printTy sp i (sep sp (tArrow ++ sep sp (printTy sp o tl))))
+  | .error n _ none, tl => tError ++ sep sp (n ++ tl)
+  | .error n _ (some t), tl => tError ++ sep sp (n ++ sep sp (printTy sp t tl))
 
 def printMembers (sp : Bool) : List Member → Bytes
   | [] => []
-  | m :: r => printMember sp m ++ (if sp then [10] else []) ++ printMembers sp r
+  | m :: r => printMember sp m ((if sp then [10] else []) ++ printMembers sp r)
 
 /-- canonical text -/
 def print (t : Idl) : Bytes :=
-  tInterface ++ 32 :: t.name ++ 10 :: 10 :: printMembers true t.members
+  tInterface ++ 32 :: (t.name ++ 10 :: 10 :: printMembers true t.members)
 
 /-- the tokens of `t`, concatenated -/
 def toks (t : Idl) : Bytes :=
-  tInterface ++ t.name ++ printMembers false t.members
+  tInterface ++ (t.name ++ printMembers false t.members)
 
 end Varlink.Idl
